@@ -1,6 +1,6 @@
 (* C06 — optimize terminates, respects purity, and reaches a minimal fixpoint. Property theorems only. *)
 Require Import ZArith NArith Bool List Arith. Import ListNotations.
-Require Import F64 Dec Types Generic Lang Opt IO OptFacts OptFacts2 OptFacts3 OptFacts4 WalkTypes WalkRead GenOptArms OptTab.
+Require Import F64 Dec Types Generic Lang Opt IO OptFacts OptFacts2 OptFacts3 OptFacts4 OptFacts5 WalkTypes WalkRead GenOptArms OptTab.
 
 (* termination with the closed-form fuel the extracted run_opt uses: never OutOfFuel, for every tree and environment *)
 Theorem C06_terminates : forall E e acc, fst (fst (optimize_t E (opt_fuel e) e acc)) <> Generic.OOutOfFuel.
@@ -56,3 +56,7 @@ Theorem C06_transform_is_the_table : forall e, Some (Generic.tt e) = match arm_f
 Proof. exact tt_is_the_table. Qed.
 Theorem C06_fold_is_the_table : forall E e, Some (Generic.fold as_bool is_empty un binop E e) = match arm_for gen_fold_constants_arms e with Some b => fold_body E b e | None => None end.
 Proof. exact fold_is_the_table. Qed.
+
+(* "never reads a variable", semantically: status and result tree are the same whatever the variables are bound to *)
+Theorem C06_optimize_ignores_bindings : forall E E' k e acc, same_functions E E' -> fst (optimize_t E k e acc) = fst (optimize_t E' k e acc).
+Proof. exact optimize_ignores_bindings. Qed.
